@@ -97,3 +97,12 @@ Definition w_page_cells (c : wchunk) (p : wpage) : option (list (option value)) 
   | WPlainP cells => Some cells
   | WDictP codes => match wc_labels c with Some labels => label_cells labels codes | None => None end
   end.
+
+(* the whole column of the chunk: the cells of its pages in order, and its row count *)
+Fixpoint w_pages_cells (c : wchunk) (ps : list wpage) : option (list (option value)) :=
+  match ps with
+  | [] => Some []
+  | p :: r => match w_page_cells c p, w_pages_cells c r with Some a, Some b => Some (a ++ b) | _, _ => None end
+  end.
+Definition w_chunk_cells (c : wchunk) : option (list (option value)) := w_pages_cells c (wc_pages c).
+Definition w_chunk_rows (c : wchunk) : N := sumN (map w_rows (wc_pages c)).
